@@ -125,9 +125,14 @@ mutual
     | b, .namedExpr t v, e', h => by
         simp only [transf] at h
         obtain ⟨v', hv, h⟩ := bind_ok h
+        have ihv := transf_bnd n b v v' hv
+        by_cases hm : b.contains lamMark = true
+        · rw [if_pos hm] at h; cases pure_ok h
+          simp only [bnd]
+          exact cons_sub t ihv
+        rw [if_neg hm] at h
         obtain ⟨r, hr, h⟩ := bind_ok h
         have hr' := getAssign_bnd hr
-        have ihv := transf_bnd n b v v' hv
         have key : bnd r ⊆ bnd (.namedExpr t v) := by
           simp only [bnd]
           exact fun x hx => (cons_sub t ihv) (hr' hx)
